@@ -85,6 +85,7 @@ EXTRA = [
     "struct S { int x; } a, *b;",
     "enum E { A = 1, B, } e;",
     "int f(void){ if (({ 1; })) return ({ 2; }); while (({ 0; })) ; for (({ 1; }); ({ 2; }); ({ 3; })) ; int x = ({ 4; }); return x; }",
+    "#pragma omp parallel  \nint x;\nvoid f(void){\n#pragma unroll 4\t\n for(;;) ;\n#pragma  spaced   out \n}\nstruct S {\n#pragma pack(1) \n int a; };",
     "typedef int T; void f(void){ T T, *p; }",
     "typedef int T; void f(int a){ T T , T ; }",
     "typedef int T; enum { T , } ;",
